@@ -587,9 +587,11 @@ func (g *world) downTree() {
 	}
 	// lower justified branch: forks below the next boundary under the tip
 	top := g.height(a)
-	bnd := (top - 1) / 4 * 4 // highest boundary strictly below the tip
-	if bnd < 20 {
-		bnd = 20
+	// an epoch boundary below the tip (20, 24, ...), not always the highest one: the lower the node
+	// goes, the more outputs spent above are immature / locked again at its new height
+	bnd := uint64(20)
+	if hi := (top - 1) / 4 * 4; hi > 20 && g.r.Chance(40) {
+		bnd = 20 + 4*uint64(g.r.Intn(int((hi-20)/4)+1))
 	}
 	p := g.path(a)
 	lo := TrunkLen
